@@ -7,6 +7,7 @@ import KVerif.Drv.C05
 import KVerif.Drv.Kan
 import KVerif.Drv.C02
 import KVerif.Drv.C14
+import KVerif.Drv.C18
 open KVerif.Drv
 
 /-- kvdrv <prop>: one case line in, one `M <model> ## S <spec>` line out. -/
@@ -22,6 +23,8 @@ def dispatch (prop : String) : Option (String → String × String) :=
   | "C02" => some C02.run
   | "C14" => some C14.run
   | "C14o" => some C14.runOracle
+  | "C18" => some C18.run
+  | "C18o" => some C18.runOracle
   | "LALL" => some (Lay.run "LAY")
   | _ => none
 
